@@ -69,6 +69,15 @@ Proof. intros. unfold raises. rewrite filter_app, app_length. reflexivity. Qed.
 Lemma runs_app : forall a b, runs (a ++ b) = runs a + runs b.
 Proof. intros. unfold runs. rewrite filter_app, app_length. reflexivity. Qed.
 
+Lemma list_sum_cons : forall x l, list_sum (x :: l) = x + list_sum l.
+Proof. reflexivity. Qed.
+Lemma disposes_cons : forall i o l, disposes i (o :: l) = (if is_disp i o then 1 else 0) + disposes i l.
+Proof. intros. unfold disposes. cbn [filter]. destruct (is_disp i o); reflexivity. Qed.
+Lemma disposes_nil : forall i, disposes i [] = 0.
+Proof. reflexivity. Qed.
+Lemma cnt_nil : forall i, cnt i [] = 0.
+Proof. reflexivity. Qed.
+
 Lemma disposes_map_ODisp : forall i l, disposes i (map ODisp l) = cnt i l.
 Proof.
   intros i l. unfold disposes, cnt. induction l as [|x t IH]; [reflexivity|].
@@ -206,20 +215,22 @@ Lemma c_step_conservation : forall s o i,
 Proof.
   intros s o i. destruct o as [j|j| | |j| | |]; cbn [c_step c_adds].
   - destruct (c_disposed s); cbn [fst snd c_items].
-    + unfold disposes. cbn. destruct (Nat.eqb i j); cbn; lia.
-    + rewrite cnt_app, cnt_cons. unfold disposes, cnt at 3. cbn. destruct (Nat.eqb i j); lia.
-  - destruct (c_disposed s); cbn [fst snd c_items]; [unfold disposes; cbn; lia|].
-    destruct (mem j (c_items s)) eqn:M; cbn [fst snd c_items]; [|unfold disposes; cbn; lia].
-    unfold disposes. cbn [filter is_disp]. destruct (Nat.eqb i j) eqn:E.
-    + apply Nat.eqb_eq in E. subst j. pose proof (cnt_remove_first_same i _ M). cbn [length]. lia.
-    + apply Nat.eqb_neq in E. rewrite (cnt_remove_first_other i j _ E). cbn [length]. lia.
-  - destruct (c_disposed s) eqn:D; cbn [fst snd c_items]; [unfold disposes; cbn; lia|].
-    rewrite disposes_map_ODisp. unfold cnt at 2. cbn. lia.
-  - cbn [fst snd c_items]. rewrite disposes_map_ODisp. unfold cnt at 2. cbn. lia.
-  - cbn [fst snd]. unfold disposes. cbn. lia.
-  - cbn [fst snd]. unfold disposes. cbn. lia.
-  - cbn [fst snd]. unfold disposes. cbn. lia.
-  - cbn [fst snd]. unfold disposes. cbn. lia.
+    + rewrite disposes_cons, disposes_nil. cbn [is_disp]. destruct (Nat.eqb i j); lia.
+    + rewrite cnt_app, cnt_cons, cnt_nil, disposes_nil. destruct (Nat.eqb i j); lia.
+  - destruct (c_disposed s); cbn [fst snd c_items].
+    { rewrite disposes_cons, disposes_nil. cbn [is_disp]. lia. }
+    destruct (mem j (c_items s)) eqn:M; cbn [fst snd c_items].
+    2:{ rewrite disposes_cons, disposes_nil. cbn [is_disp]. lia. }
+    rewrite !disposes_cons, disposes_nil. cbn [is_disp]. destruct (Nat.eqb i j) eqn:E.
+    + apply Nat.eqb_eq in E. subst j. pose proof (cnt_remove_first_same i _ M). lia.
+    + apply Nat.eqb_neq in E. rewrite (cnt_remove_first_other i j _ E). lia.
+  - destruct (c_disposed s) eqn:D; cbn [fst snd c_items]; [rewrite disposes_nil; lia|].
+    rewrite disposes_map_ODisp, cnt_nil. lia.
+  - cbn [fst snd c_items]. rewrite disposes_map_ODisp, cnt_nil. lia.
+  - cbn [fst snd]. rewrite disposes_cons, disposes_nil. cbn [is_disp]. lia.
+  - cbn [fst snd]. rewrite disposes_cons, disposes_nil. cbn [is_disp]. lia.
+  - cbn [fst snd]. rewrite disposes_cons, disposes_nil. cbn [is_disp]. lia.
+  - cbn [fst snd]. rewrite disposes_cons, disposes_nil. cbn [is_disp]. lia.
 Qed.
 
 Lemma composite_conservation_gen : forall h s i,
@@ -229,7 +240,7 @@ Proof.
   - rewrite log_nil, final_nil. unfold c_hadds, disposes. cbn. lia.
   - rewrite log_cons, final_cons, disposes_app.
     pose proof (IH (fst (c_step s o)) i) as H1. pose proof (c_step_conservation s o i) as H2.
-    unfold c_hadds in *. cbn [map list_sum]. lia.
+    unfold c_hadds in *. cbn [map]. rewrite list_sum_cons. lia.
 Qed.
 
 (* CONSERVATION, all histories: for every item, (#dispose() calls it received)
@@ -334,13 +345,846 @@ Proof.
   - rewrite log_nil, final_nil. unfold s_hsets, disposes. cbn. lia.
   - rewrite log_cons, final_cons, disposes_app.
     pose proof (IH (fst (ser_step s o)) i) as H1. pose proof (ser_step_conservation s o i) as H2.
-    unfold s_hsets in *. cbn [map list_sum]. lia.
+    unfold s_hsets in *. cbn [map]. rewrite list_sum_cons. lia.
 Qed.
 
 Lemma serial_conservation : forall h i,
   disposes i (log ser_step s_init h) + ocnt i (s_cur (final ser_step s_init h)) = s_hsets i h.
 Proof. intros. rewrite serial_conservation_gen. reflexivity. Qed.
 
-Lemma slot_dispose_ok : forall s, s_ok (fst (slot_dispose s)).
-Proof. intros s. unfold slot_dispose, s_ok. destruct (s_disposed s) eqn:D; cbn [fst s_cur s_disposed]; auto.
-  intros _. Abort.
+Lemma slot_dispose_ok : forall s, s_ok s -> s_ok (fst (slot_dispose s)).
+Proof.
+  intros s H. unfold slot_dispose. destruct (s_disposed s) eqn:D; cbn [fst]; [exact H|].
+  intros _. reflexivity.
+Qed.
+
+Lemma slot_dispose_disposed : forall s, s_disposed (fst (slot_dispose s)) = true.
+Proof. intros s. unfold slot_dispose. destruct (s_disposed s) eqn:D; cbn [fst s_disposed]; auto. Qed.
+
+Lemma ser_step_ok : forall s o, s_ok s -> s_ok (fst (ser_step s o)).
+Proof.
+  intros s o H. destruct o as [j| | |]; cbn [ser_step].
+  - destruct (s_disposed s) eqn:D; cbn [fst]; [exact H|]. intros X. discriminate X.
+  - apply slot_dispose_ok, H.
+  - rewrite slot_query_id. exact H.
+  - rewrite slot_query_id. exact H.
+Qed.
+
+Lemma ser_final_ok : forall h s, s_ok s -> s_ok (final ser_step s h).
+Proof.
+  induction h as [|o t IH]; intros s H; [exact H|]. rewrite final_cons. apply IH, ser_step_ok, H.
+Qed.
+
+Lemma s_init_ok : s_ok s_init.
+Proof. intros H. discriminate H. Qed.
+
+(* once disposed, every item ever assigned received exactly as many dispose() calls as assignments *)
+Lemma serial_disposed_all_once : forall h i,
+  s_disposed (final ser_step s_init h) = true ->
+  disposes i (log ser_step s_init h) = s_hsets i h.
+Proof.
+  intros h i D. pose proof (serial_conservation h i) as C.
+  rewrite (ser_final_ok h s_init s_init_ok D) in C. rewrite ocnt_none in C. lia.
+Qed.
+
+(* an item assigned exactly once: not disposed while it is the current one, disposed exactly once
+   as soon as it is not (replaced, or the container was disposed) *)
+Lemma serial_item_once : forall h i,
+  s_hsets i h = 1 ->
+  (s_cur (final ser_step s_init h) = Some i -> disposes i (log ser_step s_init h) = 0) /\
+  (s_cur (final ser_step s_init h) <> Some i -> disposes i (log ser_step s_init h) = 1).
+Proof.
+  intros h i U. pose proof (serial_conservation h i) as C. split; intros M.
+  - rewrite M in C. cbn [ocnt] in C. rewrite Nat.eqb_refl in C. lia.
+  - destruct (s_cur (final ser_step s_init h)) as [j|]; cbn [ocnt] in C.
+    + destruct (Nat.eqb i j) eqn:E; [apply Nat.eqb_eq in E; subst j; contradiction|lia].
+    + lia.
+Qed.
+
+Lemma slot_disposed_sticky : forall (step : sstate -> sop -> sstate * list obs),
+  (forall s o, s_disposed s = true -> s_disposed (fst (step s o)) = true) ->
+  forall h s, s_disposed s = true -> s_disposed (final step s h) = true.
+Proof.
+  intros step Hs. induction h as [|o t IH]; intros s H; [exact H|].
+  rewrite final_cons. apply IH, Hs, H.
+Qed.
+
+Lemma ser_sticky1 : forall s o, s_disposed s = true -> s_disposed (fst (ser_step s o)) = true.
+Proof.
+  intros s o H. destruct o; cbn [ser_step]; rewrite ?slot_query_id; auto.
+  - rewrite H. exact H.
+  - apply slot_dispose_disposed.
+Qed.
+
+Lemma serial_disposed_after_dispose : forall h1 h2,
+  s_disposed (final ser_step s_init (h1 ++ SDispose :: h2)) = true.
+Proof.
+  intros. rewrite final_app, final_cons. apply (slot_disposed_sticky ser_step ser_sticky1).
+  cbn [ser_step]. apply slot_dispose_disposed.
+Qed.
+
+Lemma serial_set_after_dispose : forall h1 h2 i,
+  let s := final ser_step s_init (h1 ++ SDispose :: h2) in ser_step s (SSet i) = (s, [ODisp i]).
+Proof. intros h1 h2 i s. cbn [ser_step]. unfold s. rewrite serial_disposed_after_dispose. reflexivity. Qed.
+
+(* replacing disposes the previous item, by that very call *)
+Lemma serial_replace_disposes_old : forall s i j,
+  s_disposed s = false -> s_cur s = Some j -> snd (ser_step s (SSet i)) = [ODisp j].
+Proof. intros s i j D C. cbn [ser_step]. rewrite D, C. reflexivity. Qed.
+
+(* ---- SingleAssignmentDisposable (current tree) ---------------------------- *)
+(* assignments of item i that were rejected (the call raised) *)
+Fixpoint s_rejected (i : item) (h : list sop) (os : list (list obs)) : nat :=
+  match h, os with
+  | o :: h', out :: os' => (if 0 <? raises out then s_sets i o else 0) + s_rejected i h' os'
+  | _, _ => 0
+  end.
+
+Lemma sad_step_conservation : forall s o i,
+  disposes i (snd (sad_step s o)) + ocnt i (s_cur (fst (sad_step s o)))
+  + (if 0 <? raises (snd (sad_step s o)) then s_sets i o else 0) = ocnt i (s_cur s) + s_sets i o.
+Proof.
+  intros s o i. destruct o as [j| | |]; cbn [sad_step s_sets].
+  - destruct (s_cur s) as [c|] eqn:C; cbn [fst snd].
+    + rewrite C. cbn. lia.
+    + destruct (s_disposed s); cbn [fst snd s_cur].
+      * rewrite disposes_cons, disposes_nil. cbn [is_disp]. rewrite C. cbn. destruct (Nat.eqb i j); lia.
+      * rewrite disposes_nil. cbn. destruct (Nat.eqb i j); lia.
+  - pose proof (slot_dispose_conservation s i). unfold slot_dispose in *.
+    destruct (s_disposed s); cbn [fst snd] in *.
+    + cbn. lia.
+    + replace (raises (opt_disp (s_cur s))) with 0 by (destruct (s_cur s); reflexivity).
+      cbn [s_cur ocnt] in *. cbn. lia.
+  - rewrite slot_query_id, slot_query_silent, slot_query_noraise. cbn. lia.
+  - rewrite slot_query_id, slot_query_silent, slot_query_noraise. cbn. lia.
+Qed.
+
+Lemma sad_conservation_gen : forall h s i,
+  disposes i (log sad_step s h) + ocnt i (s_cur (final sad_step s h)) + s_rejected i h (outs sad_step s h)
+  = ocnt i (s_cur s) + s_hsets i h.
+Proof.
+  induction h as [|o t IH]; intros s i.
+  - rewrite log_nil, final_nil. unfold s_hsets. cbn. lia.
+  - rewrite log_cons, final_cons, outs_cons, disposes_app. cbn [s_rejected].
+    pose proof (IH (fst (sad_step s o)) i) as H1. pose proof (sad_step_conservation s o i) as H2.
+    unfold s_hsets in *. cbn [map]. rewrite list_sum_cons. lia.
+Qed.
+
+(* conservation: every assignment is either rejected (raised), or its item is the current one, or the
+   item received exactly one dispose() *)
+Lemma sad_conservation : forall h i,
+  disposes i (log sad_step s_init h) + ocnt i (s_cur (final sad_step s_init h))
+  + s_rejected i h (outs sad_step s_init h) = s_hsets i h.
+Proof. intros. rewrite sad_conservation_gen. reflexivity. Qed.
+
+Lemma sad_step_ok : forall s o, s_ok s -> s_ok (fst (sad_step s o)).
+Proof.
+  intros s o H. destruct o as [j| | |]; cbn [sad_step].
+  - destruct (s_cur s) eqn:C; cbn [fst]; [exact H|].
+    destruct (s_disposed s) eqn:D; cbn [fst]; [exact H|]. intros X. discriminate X.
+  - apply slot_dispose_ok, H.
+  - rewrite slot_query_id. exact H.
+  - rewrite slot_query_id. exact H.
+Qed.
+
+Lemma sad_final_ok : forall h s, s_ok s -> s_ok (final sad_step s h).
+Proof.
+  induction h as [|o t IH]; intros s H; [exact H|]. rewrite final_cons. apply IH, sad_step_ok, H.
+Qed.
+
+Lemma sad_disposed_all_once : forall h i,
+  s_disposed (final sad_step s_init h) = true ->
+  disposes i (log sad_step s_init h) + s_rejected i h (outs sad_step s_init h) = s_hsets i h.
+Proof.
+  intros h i D. pose proof (sad_conservation h i) as C.
+  rewrite (sad_final_ok h s_init s_init_ok D) in C. rewrite ocnt_none in C. lia.
+Qed.
+
+Lemma sad_sticky1 : forall s o, s_disposed s = true -> s_disposed (fst (sad_step s o)) = true.
+Proof.
+  intros s o H. destruct o; cbn [sad_step]; rewrite ?slot_query_id; auto.
+  - destruct (s_cur s); cbn [fst]; [exact H|]. rewrite H. exact H.
+  - apply slot_dispose_disposed.
+Qed.
+
+(* while no dispose() happens, the container stays live and an assigned item stays assigned *)
+Lemma sad_live_keeps : forall h s,
+  existsb is_sdispose h = false -> s_disposed s = false ->
+  s_disposed (final sad_step s h) = false /\
+  (forall c, s_cur s = Some c -> s_cur (final sad_step s h) = Some c) /\
+  (forall i, disposes i (log sad_step s h) = 0).
+Proof.
+  induction h as [|o t IH]; intros s N D.
+  - rewrite final_nil, log_nil. auto.
+  - cbn [existsb] in N. apply orb_false_iff in N. destruct N as [N1 N2].
+    rewrite final_cons, log_cons. destruct o as [j| | |]; try discriminate N1.
+    + cbn [sad_step]. destruct (s_cur s) as [c|] eqn:C; cbn [fst snd].
+      * destruct (IH s N2 D) as [A [B E]]. split; [exact A|]. split.
+        -- intros c' Hc. apply B. congruence.
+        -- intros i. rewrite disposes_app, E. reflexivity.
+      * rewrite D. cbn [fst snd].
+        destruct (IH (SState (Some j) false) N2 eq_refl) as [A [B E]]. split; [exact A|]. split.
+        -- intros c' Hc. discriminate Hc.
+        -- intros i. rewrite disposes_app, E. reflexivity.
+    + cbn [sad_step]. rewrite slot_query_id. destruct (IH s N2 D) as [A [B E]].
+      split; [exact A|]. split; [exact B|]. intros i. rewrite disposes_app, E. reflexivity.
+    + cbn [sad_step]. rewrite slot_query_id. destruct (IH s N2 D) as [A [B E]].
+      split; [exact A|]. split; [exact B|]. intros i. rewrite disposes_app, E. reflexivity.
+Qed.
+
+(* A second assignment to a SingleAssignmentDisposable that is not disposed is rejected, whatever
+   else (other than dispose) happened in between; it changes nothing. *)
+Lemma sad_second_assignment_rejected : forall h1 h2 i j,
+  existsb is_sdispose (h1 ++ SSet i :: h2) = false ->
+  let s := final sad_step s_init (h1 ++ SSet i :: h2) in
+  sad_step s (SSet j) = (s, [ORaise]).
+Proof.
+  intros h1 h2 i j N s. rewrite existsb_app in N. apply orb_false_iff in N. destruct N as [N1 N2].
+  cbn [existsb is_sdispose orb] in N2.
+  destruct (sad_live_keeps h1 s_init N1 eq_refl) as [A1 [_ _]].
+  assert (exists c, s_cur (final sad_step s_init (h1 ++ [SSet i])) = Some c /\
+                    s_disposed (final sad_step s_init (h1 ++ [SSet i])) = false) as [c [Hc Hd]].
+  { rewrite final_app, final_cons, final_nil. cbn [sad_step].
+    destruct (s_cur (final sad_step s_init h1)) as [c|] eqn:C; cbn [fst].
+    - exists c. split; [exact C|exact A1].
+    - rewrite A1. cbn [fst]. exists i. split; reflexivity. }
+  assert (s = final sad_step (final sad_step s_init (h1 ++ [SSet i])) h2) as Hs.
+  { unfold s. rewrite <- final_app, <- app_assoc. reflexivity. }
+  destruct (sad_live_keeps h2 _ N2 Hd) as [_ [B _]]. specialize (B c Hc). rewrite <- Hs in B.
+  cbn [sad_step]. rewrite B. reflexivity.
+Qed.
+
+(* ... and the first assignment is never rejected *)
+Definition is_sset (o : sop) : bool := match o with SSet _ => true | _ => false end.
+Lemma sad_no_set_no_current : forall h s,
+  existsb is_sset h = false -> s_cur s = None -> s_cur (final sad_step s h) = None.
+Proof.
+  induction h as [|o t IH]; intros s N C; [exact C|].
+  cbn [existsb] in N. apply orb_false_iff in N. destruct N as [N1 N2]. rewrite final_cons.
+  apply IH; [exact N2|]. destruct o; try discriminate N1; cbn [sad_step]; rewrite ?slot_query_id; auto.
+  unfold slot_dispose. destruct (s_disposed s); cbn [fst s_cur]; auto.
+Qed.
+
+Lemma sad_first_assignment_accepted : forall h i,
+  existsb is_sset h = false ->
+  raises (snd (sad_step (final sad_step s_init h) (SSet i))) = 0.
+Proof.
+  intros h i N. cbn [sad_step]. rewrite (sad_no_set_no_current h s_init N eq_refl).
+  destruct (s_disposed _); reflexivity.
+Qed.
+
+Lemma sad_disposed_after_dispose : forall h1 h2,
+  s_disposed (final sad_step s_init (h1 ++ SDispose :: h2)) = true.
+Proof.
+  intros. rewrite final_app, final_cons. apply (slot_disposed_sticky sad_step sad_sticky1).
+  cbn [sad_step]. apply slot_dispose_disposed.
+Qed.
+
+(* assignment after dispose(): disposed at once (never kept, never rejected) *)
+Lemma sad_set_after_dispose : forall h1 h2 i,
+  let s := final sad_step s_init (h1 ++ SDispose :: h2) in sad_step s (SSet i) = (s, [ODisp i]).
+Proof.
+  intros h1 h2 i s. cbn [sad_step]. unfold s.
+  rewrite (sad_final_ok _ s_init s_init_ok (sad_disposed_after_dispose h1 h2)).
+  rewrite sad_disposed_after_dispose. reflexivity.
+Qed.
+
+(* ---- MultipleAssignmentDisposable ------------------------------------------ *)
+Fixpoint disp_ids (l : list obs) : list item :=
+  match l with [] => [] | ODisp i :: t => i :: disp_ids t | _ :: t => disp_ids t end.
+Fixpoint sets_of (h : list sop) : list item :=
+  match h with [] => [] | SSet i :: t => i :: sets_of t | _ :: t => sets_of t end.
+Definition last_set (h : list sop) : option item :=
+  match rev (sets_of h) with [] => None | i :: _ => Some i end.
+Definition opt_items (o : option item) : list item := match o with Some i => [i] | None => [] end.
+
+Lemma disp_ids_app : forall a b, disp_ids (a ++ b) = disp_ids a ++ disp_ids b.
+Proof.
+  induction a as [|x t IH]; intros b; [reflexivity|]. cbn [app disp_ids]. destruct x; rewrite IH; reflexivity.
+Qed.
+
+Lemma sets_of_app : forall a b, sets_of (a ++ b) = sets_of a ++ sets_of b.
+Proof.
+  induction a as [|x t IH]; intros b; [reflexivity|]. cbn [app sets_of]. destruct x; rewrite IH; reflexivity.
+Qed.
+
+(* no dispose(): nothing is ever disposed, the current item is the last one assigned *)
+Lemma mad_live : forall h s,
+  existsb is_sdispose h = false -> s_disposed s = false ->
+  s_disposed (final mad_step s h) = false /\
+  disp_ids (log mad_step s h) = [] /\
+  s_cur (final mad_step s h) = match last_set h with Some i => Some i | None => s_cur s end.
+Proof.
+  induction h as [|o t IH]; intros s N D.
+  - rewrite final_nil, log_nil. auto.
+  - cbn [existsb] in N. apply orb_false_iff in N. destruct N as [N1 N2].
+    rewrite final_cons, log_cons, disp_ids_app. destruct o as [j| | |]; try discriminate N1.
+    + cbn [mad_step]. rewrite D. cbn [fst snd].
+      destruct (IH (SState (Some j) false) N2 eq_refl) as [A [B C]].
+      split; [exact A|]. split; [rewrite B; reflexivity|]. rewrite C.
+      unfold last_set. cbn [sets_of rev s_cur]. destruct (rev (sets_of t)) as [|x r] eqn:R; reflexivity.
+    + cbn [mad_step]. rewrite slot_query_id. destruct (IH s N2 D) as [A [B C]].
+      split; [exact A|]. split; [rewrite B; reflexivity|]. rewrite C. reflexivity.
+    + cbn [mad_step]. rewrite slot_query_id. destruct (IH s N2 D) as [A [B C]].
+      split; [exact A|]. split; [rewrite B; reflexivity|]. rewrite C. reflexivity.
+Qed.
+
+(* once disposed: each later assignment is disposed at once, nothing else *)
+Lemma mad_dead : forall h s,
+  s_disposed s = true -> s_cur s = None -> disp_ids (log mad_step s h) = sets_of h.
+Proof.
+  induction h as [|o t IH]; intros s D C; [reflexivity|].
+  rewrite log_cons, disp_ids_app. destruct o as [j| | |]; cbn [mad_step sets_of].
+  - rewrite D. cbn [fst snd disp_ids app]. rewrite (IH s D C). reflexivity.
+  - unfold slot_dispose. rewrite D. cbn [fst snd disp_ids app]. apply (IH s D C).
+  - rewrite slot_query_id. cbn [slot_query snd disp_ids app]. apply (IH s D C).
+  - rewrite slot_query_id. cbn [slot_query snd disp_ids app]. apply (IH s D C).
+Qed.
+
+(* complete characterisation of the dispose() calls a MultipleAssignmentDisposable makes:
+   none before the first dispose(); at the first dispose() the current (= last assigned) item;
+   afterwards every newly assigned item, at once *)
+Lemma mad_characterisation_live : forall h,
+  existsb is_sdispose h = false -> disp_ids (log mad_step s_init h) = [].
+Proof. intros h N. destruct (mad_live h s_init N eq_refl) as [_ [B _]]. exact B. Qed.
+
+Lemma mad_characterisation : forall h1 h2,
+  existsb is_sdispose h1 = false ->
+  disp_ids (log mad_step s_init (h1 ++ SDispose :: h2)) = opt_items (last_set h1) ++ sets_of h2.
+Proof.
+  intros h1 h2 N. destruct (mad_live h1 s_init N eq_refl) as [A [B C]].
+  rewrite log_app, disp_ids_app, B, log_cons, disp_ids_app. cbn [app mad_step].
+  unfold slot_dispose. rewrite A. cbn [fst snd]. rewrite C. cbn [s_init s_cur].
+  rewrite (mad_dead h2 (SState None true) eq_refl eq_refl).
+  destruct (last_set h1); reflexivity.
+Qed.
+
+(* ---- ScheduledDisposable --------------------------------------------------- *)
+(* number of queued actions the scheduler actually ran *)
+Fixpoint eff_runs (q : nat) (h : list schop) : nat :=
+  match h with
+  | [] => 0
+  | SchDispose :: t => eff_runs (S q) t
+  | SchRunOne :: t => match q with O => eff_runs O t | S q' => S (eff_runs q' t) end
+  | SchIsDisposed :: t => eff_runs q t
+  end.
+Definition is_sched (o : obs) : bool := match o with OSched => true | _ => false end.
+Definition scheds (l : list obs) : nat := length (filter is_sched l).
+Definition is_schdispose (o : schop) : bool := match o with SchDispose => true | _ => false end.
+
+Lemma scheduled_gen : forall h inner q i,
+  s_ok inner ->
+  (forall j, ocnt j (s_cur inner) <= (if Nat.eqb j i then 1 else 0)) ->
+  let s := SchState inner q in
+  (forall j, disposes j (log sch_step s h) =
+             if 0 <? eff_runs q h then ocnt j (s_cur inner) else 0) /\
+  s_disposed (sch_inner (final sch_step s h)) = (s_disposed inner || (0 <? eff_runs q h))%bool.
+Proof.
+  induction h as [|o t IH]; intros inner q i OK U s.
+  - rewrite log_nil, final_nil. cbn. rewrite orb_false_r. split; [intros; reflexivity|reflexivity].
+  - unfold s. rewrite log_cons, final_cons. destruct o; cbn [sch_step eff_runs].
+    + cbn [fst snd sch_inner sch_queue]. destruct (IH inner (S q) i OK U) as [A B]. split; [|exact B].
+      intros j. rewrite disposes_app, A. reflexivity.
+    + destruct q as [|q']; cbn [sch_queue].
+      * cbn [fst snd]. destruct (IH inner 0 i OK U) as [A B]. split; [|exact B].
+        intros j. rewrite disposes_app, A. reflexivity.
+      * cbn [sch_inner sad_step]. unfold slot_dispose.
+        destruct (s_disposed inner) eqn:D; cbn [fst snd].
+        -- assert (OK' := OK D).
+           destruct (IH inner q' i OK U) as [A B]. split.
+           ++ intros j. rewrite disposes_app, A, OK', disposes_nil. cbn [s_cur ocnt].
+              change (0 <? S (eff_runs q' t)) with true. cbn iota.
+              destruct (0 <? eff_runs q' t); reflexivity.
+           ++ rewrite B, D. reflexivity.
+        -- assert (s_ok (SState None true)) as OK2 by (intros _; reflexivity).
+           assert (forall j, ocnt j (s_cur (SState None true)) <= (if Nat.eqb j i then 1 else 0)) as U2
+             by (intros j; cbn; lia).
+           destruct (IH (SState None true) q' i OK2 U2) as [A B]. split.
+           ++ intros j. rewrite disposes_app, A, disposes_opt_disp. cbn [s_cur ocnt].
+              change (0 <? S (eff_runs q' t)) with true. cbn iota.
+              destruct (0 <? eff_runs q' t); lia.
+           ++ rewrite B. change (0 <? S (eff_runs q' t)) with true. cbn [s_disposed orb]. reflexivity.
+    + cbn [fst snd]. destruct (IH inner q i OK U) as [A B]. split; [|exact B].
+      intros j. rewrite disposes_app, A. reflexivity.
+Qed.
+
+(* the wrapped item is disposed exactly once iff the scheduler ran at least one of the queued
+   actions, never otherwise, and nothing else is disposed; is_disposed reports exactly that *)
+Lemma scheduled_once : forall h i,
+  let s0 := sch_init i in
+  disposes i (log sch_step s0 h) = (if 0 <? eff_runs 0 h then 1 else 0) /\
+  (forall j, j <> i -> disposes j (log sch_step s0 h) = 0) /\
+  s_disposed (sch_inner (final sch_step s0 h)) = (0 <? eff_runs 0 h).
+Proof.
+  intros h i s0. unfold s0, sch_init. cbn [sad_step s_init s_cur s_disposed fst].
+  assert (s_ok (SState (Some i) false)) as OK by (intros X; discriminate X).
+  assert (forall j, ocnt j (s_cur (SState (Some i) false)) <= (if Nat.eqb j i then 1 else 0)) as U.
+  { intros j. cbn. destruct (Nat.eqb j i); lia. }
+  destruct (scheduled_gen h _ 0 i OK U) as [A B]. split; [|split].
+  - rewrite A. cbn [s_cur ocnt]. rewrite Nat.eqb_refl. reflexivity.
+  - intros j Hj. rewrite A. cbn [s_cur ocnt].
+    destruct (Nat.eqb j i) eqn:E; [apply Nat.eqb_eq in E; contradiction|].
+    destruct (0 <? eff_runs 0 h); reflexivity.
+  - rewrite B. reflexivity.
+Qed.
+
+(* every dispose() call schedules one action (repeated calls schedule repeatedly) *)
+Lemma scheduled_schedules_each : forall h s,
+  scheds (log sch_step s h) = length (filter is_schdispose h).
+Proof.
+  induction h as [|o t IH]; intros s; [reflexivity|].
+  rewrite log_cons. unfold scheds in *. rewrite filter_app, app_length, IH.
+  destruct o; cbn [sch_step filter is_schdispose].
+  - reflexivity.
+  - destruct (sch_queue s); cbn [snd]; [reflexivity|].
+    cbn [sad_step]. unfold slot_dispose. destruct (s_disposed (sch_inner s)); cbn [snd]; [reflexivity|].
+    destruct (s_cur (sch_inner s)); reflexivity.
+  - reflexivity.
+Qed.
+
+(* ======================================================================= *)
+(* RefCountDisposable                                                       *)
+Definition is_live (d : dep) : bool := match d with DInner true => true | _ => false end.
+Definition live (l : list dep) : nat := length (filter is_live l).
+Definition is_rget (o : rop) : bool := match o with RGet => true | _ => false end.
+Definition gets (h : list rop) : nat := length (filter is_rget h).
+Definition is_rdispose (o : rop) : bool := match o with RDispose => true | _ => false end.
+Definition is_rdisp (k : nat) (o : rop) : bool := match o with RDispDep j => Nat.eqb k j | _ => false end.
+(* dependent k was disposed (at least once) in h *)
+Definition dispd (k : nat) (h : list rop) : bool := existsb (is_rdisp k) h.
+(* a history only disposes dependents that were handed out before ([n] handed out so far) *)
+Fixpoint rwf (n : nat) (h : list rop) : bool :=
+  match h with
+  | [] => true
+  | RGet :: t => rwf (S n) t
+  | RDispDep k :: t => (k <? n) && rwf n t
+  | _ :: t => rwf n t
+  end.
+Definition b2n (b : bool) : nat := if b then 1 else 0.
+Definition u_disposes (l : list obs) : nat := disposes underlying l.
+
+Definition r_ok (s : rstate) : Prop :=
+  r_count s = Z.of_nat (live (r_deps s)) /\
+  (r_disposed s = true <-> (r_primary s = true /\ live (r_deps s) = 0)).
+
+Lemma live_app : forall a b, live (a ++ b) = live a + live b.
+Proof. intros. unfold live. rewrite filter_app, app_length. reflexivity. Qed.
+Lemma live_cons : forall d l, live (d :: l) = b2n (is_live d) + live l.
+Proof. intros. unfold live. cbn [filter]. destruct (is_live d); reflexivity. Qed.
+
+Lemma live_set_nth : forall l k d d',
+  nth_error l k = Some d -> live (set_nth k d' l) + b2n (is_live d) = live l + b2n (is_live d').
+Proof.
+  induction l as [|x t IH]; intros k d d' H.
+  - destruct k; discriminate H.
+  - destruct k as [|k']; cbn [nth_error] in H; cbn [set_nth].
+    + injection H as ->. rewrite !live_cons. lia.
+    + rewrite !live_cons. specialize (IH k' d d' H). lia.
+Qed.
+
+Lemma set_nth_length : forall A (l : list A) k x, length (set_nth k x l) = length l.
+Proof.
+  induction l as [|y t IH]; intros k x; [destruct k; reflexivity|]. destruct k; cbn [set_nth length]; [reflexivity|].
+  rewrite IH. reflexivity.
+Qed.
+
+Lemma set_nth_same : forall A (l : list A) k x, nth_error l k = Some x -> set_nth k x l = l.
+Proof.
+  induction l as [|y t IH]; intros k x H; [destruct k; reflexivity|]. destruct k; cbn [nth_error] in H; cbn [set_nth].
+  - injection H as ->. reflexivity.
+  - rewrite IH; [reflexivity|exact H].
+Qed.
+
+Lemma nth_set_nth_eq : forall A (l : list A) k x, k < length l -> nth_error (set_nth k x l) k = Some x.
+Proof.
+  induction l as [|y t IH]; intros k x H; [cbn in H; lia|]. destruct k; cbn [set_nth nth_error]; [reflexivity|].
+  apply IH. cbn in H. lia.
+Qed.
+
+Lemma nth_set_nth_neq : forall A (l : list A) k j x, k <> j -> nth_error (set_nth j x l) k = nth_error l k.
+Proof.
+  induction l as [|y t IH]; intros k j x H; [destruct j; reflexivity|].
+  destruct j, k; cbn [set_nth nth_error]; try reflexivity; [lia|]. apply IH. lia.
+Qed.
+
+Lemma live_zero_nth : forall l k, live l = 0 -> nth_error l k <> Some (DInner true).
+Proof.
+  induction l as [|x t IH]; intros k H; [destruct k; discriminate|].
+  rewrite live_cons in H. destruct k; cbn [nth_error].
+  - intros E. injection E as ->. cbn in H. lia.
+  - apply IH. lia.
+Qed.
+
+Lemma live_pos_nth : forall l, live l <> 0 -> exists k, nth_error l k = Some (DInner true).
+Proof.
+  induction l as [|x t IH]; intros H; [unfold live in H; cbn in H; lia|].
+  rewrite live_cons in H. destruct x as [[|]|b].
+  - exists 0. reflexivity.
+  - cbn in H. destruct (IH H) as [k Hk]. exists (S k). exact Hk.
+  - cbn in H. destruct (IH H) as [k Hk]. exists (S k). exact Hk.
+Qed.
+
+(* release() on a consistent state that still has at least one outstanding token *)
+Lemma r_release_spec : forall c p d deps,
+  d = false -> (c = Z.of_nat (S (live deps)))%Z ->
+  let s' := fst (r_release (RState c p d deps)) in
+  r_count s' = Z.of_nat (live deps) /\ r_primary s' = p /\ r_deps s' = deps /\
+  r_disposed s' = (p && (live deps =? 0))%bool /\
+  snd (r_release (RState c p d deps)) = if (p && (live deps =? 0))%bool then [ODisp underlying] else [].
+Proof.
+  intros c p d deps D C. unfold r_release. cbn [r_disposed r_count r_primary r_deps]. subst d.
+  assert (((c - 1 =? 0)%Z) = (live deps =? 0)) as E.
+  { destruct (live deps =? 0) eqn:L.
+    - apply Nat.eqb_eq in L. apply Z.eqb_eq. lia.
+    - apply Nat.eqb_neq in L. apply Z.eqb_neq. lia. }
+  rewrite E. rewrite andb_comm.
+  destruct (p && (live deps =? 0))%bool eqn:PL; cbn [fst snd r_count r_primary r_deps r_disposed];
+    repeat split; try lia; try reflexivity.
+Qed.
+
+Lemma r_step_ok : forall s o, r_ok s -> r_ok (fst (r_step s o)).
+Proof.
+  intros [c p d deps] o [Hc Hd]. cbn [r_count r_primary r_disposed r_deps] in *.
+  destruct o as [|k| |]; cbn [r_step r_count r_primary r_disposed r_deps].
+  - destruct d; cbn [fst]; unfold r_ok; cbn [r_count r_primary r_disposed r_deps];
+      rewrite live_app, live_cons; cbn [is_live b2n live filter length].
+    + split; [unfold live at 2; cbn; lia|]. destruct Hd as [H1 H2]. destruct (H1 eq_refl) as [P L].
+      split; [intros _; split; [exact P|unfold live at 2; cbn; lia]|reflexivity].
+    + split; [unfold live at 2; cbn; lia|]. split; [discriminate|]. intros [_ L]. unfold live at 2 in L. cbn in L. lia.
+  - destruct (nth_error deps k) as [[[|]|b]|] eqn:N; cbn [fst]; try (split; assumption).
+    + pose proof (live_set_nth deps k _ (DInner false) N) as LS. cbn [is_live b2n] in LS.
+      assert (d = false) as D.
+      { destruct d; [|reflexivity]. destruct Hd as [H1 _]. destruct (H1 eq_refl) as [_ L].
+        exfalso. apply (live_zero_nth deps k L N). }
+      assert (c = Z.of_nat (S (live (set_nth k (DInner false) deps))))%Z as C by lia.
+      destruct (r_release_spec c p d (set_nth k (DInner false) deps) D C) as [R1 [R2 [R3 [R4 _]]]].
+      unfold r_ok. rewrite R1, R2, R3, R4. split; [reflexivity|].
+      rewrite andb_true_iff, Nat.eqb_eq. reflexivity.
+    + pose proof (live_set_nth deps k _ (DInert true) N) as LS. cbn [is_live b2n] in LS.
+      unfold r_ok. cbn [r_count r_primary r_disposed r_deps].
+      replace (live (set_nth k (DInert true) deps)) with (live deps) by lia. split; assumption.
+  - destruct d eqn:D; cbn [fst]; [split; assumption|].
+    destruct p eqn:P; cbn [fst]; [split; assumption|].
+    destruct (c =? 0)%Z eqn:C0; cbn [fst]; unfold r_ok; cbn [r_count r_primary r_disposed r_deps].
+    + apply Z.eqb_eq in C0. split; [exact Hc|]. split; [intros _; split; [reflexivity|lia]|reflexivity].
+    + apply Z.eqb_neq in C0. split; [exact Hc|]. split; [discriminate|]. intros [_ L]. lia.
+  - cbn [fst]. split; assumption.
+Qed.
+
+Lemma r_final_ok : forall h s, r_ok s -> r_ok (final r_step s h).
+Proof.
+  induction h as [|o t IH]; intros s H; [exact H|]. rewrite final_cons. apply IH, r_step_ok, H.
+Qed.
+
+Lemma r_init_ok : r_ok r_init.
+Proof.
+  unfold r_ok, r_init. cbn. split; [reflexivity|]. split; [discriminate|]. intros [X _]. discriminate X.
+Qed.
+
+(* one call: the underlying item is disposed by this call iff this call is the one that releases *)
+Lemma r_step_u : forall s o, r_ok s ->
+  u_disposes (snd (r_step s o)) + b2n (r_disposed s) = b2n (r_disposed (fst (r_step s o))) /\
+  (forall j, j <> underlying -> disposes j (snd (r_step s o)) = 0).
+Proof.
+  intros [c p d deps] o [Hc Hd]. cbn [r_count r_primary r_disposed r_deps] in *. unfold u_disposes.
+  destruct o as [|k| |]; cbn [r_step r_count r_primary r_disposed r_deps].
+  - destruct d; cbn [fst snd r_disposed]; split; try reflexivity; intros; reflexivity.
+  - destruct (nth_error deps k) as [[[|]|b]|] eqn:N; cbn [fst snd r_disposed];
+      try (split; [reflexivity|intros; reflexivity]).
+    pose proof (live_set_nth deps k _ (DInner false) N) as LS. cbn [is_live b2n] in LS.
+    assert (d = false) as D.
+    { destruct d; [|reflexivity]. destruct Hd as [H1 _]. destruct (H1 eq_refl) as [_ L].
+      exfalso. apply (live_zero_nth deps k L N). }
+    assert (c = Z.of_nat (S (live (set_nth k (DInner false) deps))))%Z as C by lia.
+    destruct (r_release_spec c p d (set_nth k (DInner false) deps) D C) as [_ [_ [_ [R4 R5]]]].
+    rewrite R4, R5. subst d.
+    destruct (p && (live (set_nth k (DInner false) deps) =? 0))%bool; split; try reflexivity.
+    + intros j Hj. rewrite disposes_cons, disposes_nil. cbn [is_disp].
+      destruct (Nat.eqb j underlying) eqn:E; [apply Nat.eqb_eq in E; contradiction|reflexivity].
+    + intros; reflexivity.
+  - destruct d eqn:D; cbn [fst snd r_disposed]; [split; [reflexivity|intros; reflexivity]|].
+    destruct p eqn:P; cbn [fst snd r_disposed]; [split; [reflexivity|intros; reflexivity]|].
+    destruct (c =? 0)%Z; cbn [fst snd r_disposed]; split; try reflexivity.
+    + intros j Hj. rewrite disposes_cons, disposes_nil. cbn [is_disp].
+      destruct (Nat.eqb j underlying) eqn:E; [apply Nat.eqb_eq in E; contradiction|reflexivity].
+    + intros; reflexivity.
+  - cbn [fst snd]. split; [destruct d; reflexivity|intros; reflexivity].
+Qed.
+
+Lemma rc_log_gen : forall h s, r_ok s ->
+  u_disposes (log r_step s h) + b2n (r_disposed s) = b2n (r_disposed (final r_step s h)) /\
+  (forall j, j <> underlying -> disposes j (log r_step s h) = 0).
+Proof.
+  induction h as [|o t IH]; intros s H.
+  - rewrite log_nil, final_nil. split; [reflexivity|intros; reflexivity].
+  - rewrite log_cons, final_cons. destruct (r_step_u s o H) as [A1 A2].
+    destruct (IH _ (r_step_ok s o H)) as [B1 B2]. unfold u_disposes in *. split.
+    + rewrite disposes_app. lia.
+    + intros j Hj. rewrite disposes_app, A2, B2; auto.
+Qed.
+
+(* the number of dispose() calls on the underlying item is 1 if the object is released, else 0 *)
+Lemma rc_underlying_is_released_flag : forall h,
+  u_disposes (log r_step r_init h) = b2n (r_disposed (final r_step r_init h)).
+Proof. intros h. destruct (rc_log_gen h r_init r_init_ok) as [A _]. cbn [r_init r_disposed b2n] in A. lia. Qed.
+
+Lemma rc_at_most_once : forall h, u_disposes (log r_step r_init h) <= 1.
+Proof. intros h. rewrite rc_underlying_is_released_flag. destruct (r_disposed _); cbn; lia. Qed.
+
+Lemma rc_only_underlying : forall h j, j <> underlying -> disposes j (log r_step r_init h) = 0.
+Proof. intros h j Hj. destruct (rc_log_gen h r_init r_init_ok) as [_ B]. apply B, Hj. Qed.
+
+(* after the release nothing is disposed any more, whatever is called (in particular dependents
+   requested afterwards are inert) *)
+Lemma rc_after_release_silent : forall h1 h2 j,
+  u_disposes (log r_step r_init h1) = 1 -> disposes j (log r_step (final r_step r_init h1) h2) = 0.
+Proof.
+  intros h1 h2 j U. pose proof (r_final_ok h1 r_init r_init_ok) as OK.
+  destruct (rc_log_gen h2 _ OK) as [A B]. rewrite rc_underlying_is_released_flag in U.
+  destruct (Nat.eq_dec j underlying) as [->|Hj]; [|apply B, Hj].
+  destruct (r_disposed (final r_step r_init h1)); [|discriminate U]. cbn [b2n] in A. unfold u_disposes in A.
+  destruct (r_disposed (final r_step (final r_step r_init h1) h2)); cbn [b2n] in A; lia.
+Qed.
+
+Lemma rc_get_after_release_inert : forall h1,
+  u_disposes (log r_step r_init h1) = 1 ->
+  let s := final r_step r_init h1 in
+  r_step s RGet = (RState (r_count s) (r_primary s) (r_disposed s) (r_deps s ++ [DInert false]), []).
+Proof.
+  intros h1 U s. rewrite rc_underlying_is_released_flag in U. fold s in U.
+  cbn [r_step]. destruct (r_disposed s); [reflexivity|discriminate U].
+Qed.
+
+(* ---- primary flag ---------------------------------------------------------- *)
+Lemma r_primary_gen : forall h s, r_ok s ->
+  r_primary (final r_step s h) = (r_primary s || existsb is_rdispose h)%bool.
+Proof.
+  induction h as [|o t IH]; intros s H.
+  - rewrite final_nil. cbn. rewrite orb_false_r. reflexivity.
+  - rewrite final_cons, (IH _ (r_step_ok s o H)). cbn [existsb].
+    destruct s as [c p d deps]. destruct H as [Hc Hd]. cbn [r_count r_primary r_disposed r_deps] in *.
+    destruct o as [|k| |]; cbn [r_step is_rdispose r_count r_primary r_disposed r_deps].
+    + destruct d; reflexivity.
+    + destruct (nth_error deps k) as [[[|]|b]|] eqn:N; cbn [fst r_primary]; try reflexivity.
+      unfold r_release. cbn [r_disposed r_count r_primary r_deps]. destruct d; cbn [fst r_primary]; [reflexivity|].
+      destruct ((c - 1 =? 0)%Z && p)%bool; reflexivity.
+    + destruct d eqn:D; cbn [fst r_primary].
+      * destruct Hd as [H1 _]. destruct (H1 eq_refl) as [P _]. rewrite P. reflexivity.
+      * destruct p; cbn [fst r_primary]; [reflexivity|]. destruct (c =? 0)%Z; reflexivity.
+    + reflexivity.
+Qed.
+
+(* ---- positions of handles ---------------------------------------------------- *)
+Lemma r_release_deps : forall s, r_deps (fst (r_release s)) = r_deps s.
+Proof.
+  intros s. unfold r_release. destruct (r_disposed s); [reflexivity|].
+  destruct ((r_count s - 1 =? 0)%Z && r_primary s)%bool; reflexivity.
+Qed.
+
+Lemma r_release_disposed_mono : forall s, r_disposed s = true -> r_disposed (fst (r_release s)) = true.
+Proof. intros s H. unfold r_release. rewrite H. exact H. Qed.
+
+Lemma r_step_length : forall s o,
+  length (r_deps (fst (r_step s o))) = length (r_deps s) + b2n (is_rget o).
+Proof.
+  intros s o. destruct o as [|k| |]; cbn [r_step is_rget b2n].
+  - destruct (r_disposed s); cbn [fst r_deps]; rewrite app_length; reflexivity.
+  - destruct (nth_error (r_deps s) k) as [[[|]|b]|]; cbn [fst r_deps];
+      rewrite ?r_release_deps; cbn [r_deps]; rewrite ?set_nth_length; lia.
+  - destruct (r_disposed s); [cbn; lia|]. destruct (r_primary s); [cbn; lia|].
+    destruct (r_count s =? 0)%Z; cbn; lia.
+  - cbn. lia.
+Qed.
+
+Lemma r_final_length : forall h s, length (r_deps (final r_step s h)) = length (r_deps s) + gets h.
+Proof.
+  induction h as [|o t IH]; intros s.
+  - rewrite final_nil. unfold gets. cbn. lia.
+  - rewrite final_cons, IH, r_step_length. unfold gets. cbn [filter]. destruct (is_rget o); cbn [b2n length]; lia.
+Qed.
+
+(* status of a handle after one more call *)
+Definition dep_after (d : dep) (hit : bool) : dep :=
+  match d with
+  | DInner b => DInner (b && negb hit)
+  | DInert b => DInert (b || hit)
+  end.
+
+Lemma r_step_nth : forall s o k d,
+  nth_error (r_deps s) k = Some d ->
+  nth_error (r_deps (fst (r_step s o))) k = Some (dep_after d (is_rdisp k o)).
+Proof.
+  intros s o k d N. assert (k < length (r_deps s)) as L by (apply nth_error_Some; congruence).
+  destruct o as [|j| |]; cbn [r_step is_rdisp].
+  - destruct (r_disposed s); cbn [fst r_deps]; rewrite nth_error_app1 by exact L; rewrite N;
+      destruct d as [b|b]; cbn; rewrite ?andb_true_r, ?orb_false_r; reflexivity.
+  - destruct (Nat.eqb k j) eqn:E.
+    + apply Nat.eqb_eq in E. subst j. rewrite N. destruct d as [[|]|b]; cbn [fst r_deps dep_after].
+      * rewrite r_release_deps. cbn [r_deps]. rewrite nth_set_nth_eq by exact L. reflexivity.
+      * rewrite N. reflexivity.
+      * rewrite nth_set_nth_eq by exact L. cbn. rewrite orb_true_r. reflexivity.
+    + apply Nat.eqb_neq in E.
+      assert (dep_after d false = d) as DA by (destruct d as [b|b]; cbn; rewrite ?andb_true_r, ?orb_false_r; reflexivity).
+      rewrite DA.
+      destruct (nth_error (r_deps s) j) as [[[|]|b]|]; cbn [fst r_deps]; rewrite ?r_release_deps; cbn [r_deps];
+        rewrite ?nth_set_nth_neq by exact E; exact N.
+  - assert (dep_after d false = d) as DA by (destruct d as [b|b]; cbn; rewrite ?andb_true_r, ?orb_false_r; reflexivity).
+    rewrite DA. destruct (r_disposed s); [exact N|]. destruct (r_primary s); [exact N|].
+    destruct (r_count s =? 0)%Z; exact N.
+  - assert (dep_after d false = d) as DA by (destruct d as [b|b]; cbn; rewrite ?andb_true_r, ?orb_false_r; reflexivity).
+    rewrite DA. exact N.
+Qed.
+
+Lemma dep_after_after : forall d a b, dep_after (dep_after d a) b = dep_after d (a || b).
+Proof.
+  intros [x|x] a b; cbn; f_equal.
+  - rewrite negb_orb, andb_assoc. reflexivity.
+  - rewrite orb_assoc. reflexivity.
+Qed.
+
+Lemma r_final_nth : forall h s k d,
+  nth_error (r_deps s) k = Some d ->
+  nth_error (r_deps (final r_step s h)) k = Some (dep_after d (dispd k h)).
+Proof.
+  induction h as [|o t IH]; intros s k d N.
+  - rewrite final_nil. unfold dispd. cbn [existsb]. rewrite N. f_equal.
+    destruct d; cbn; rewrite ?andb_true_r, ?orb_false_r; reflexivity.
+  - rewrite final_cons. rewrite (IH _ k _ (r_step_nth s o k d N)). rewrite dep_after_after. reflexivity.
+Qed.
+
+Lemma r_disposed_sticky1 : forall s o, r_disposed s = true -> r_disposed (fst (r_step s o)) = true.
+Proof.
+  intros s o H. destruct o as [|k| |]; cbn [r_step]; rewrite ?H; cbn [fst r_disposed]; auto.
+  destruct (nth_error (r_deps s) k) as [[[|]|b]|]; cbn [fst r_disposed]; auto.
+  apply r_release_disposed_mono. exact H.
+Qed.
+
+(* a handle created during h: by which RGet, and what state the object was in at that moment *)
+Lemma r_created : forall h s k d,
+  length (r_deps s) <= k ->
+  nth_error (r_deps (final r_step s h)) k = Some d ->
+  exists h1 h2, h = h1 ++ RGet :: h2 /\ length (r_deps s) + gets h1 = k /\
+    d = dep_after (if r_disposed (final r_step s h1) then DInert false else DInner true) (dispd k h2).
+Proof.
+  induction h as [|o t IH]; intros s k d L N.
+  - rewrite final_nil in N. apply nth_error_None in L. congruence.
+  - rewrite final_cons in N. pose proof (r_step_length s o) as SL.
+    destruct (Nat.lt_ge_cases k (length (r_deps (fst (r_step s o))))) as [Lt|Ge].
+    + (* created by this very call *)
+      destruct o as [|j| |]; cbn [is_rget b2n] in SL; try lia.
+      assert (k = length (r_deps s)) as -> by lia.
+      exists [], t. split; [reflexivity|]. split; [unfold gets; cbn; lia|].
+      rewrite final_nil.
+      assert (nth_error (r_deps (fst (r_step s RGet))) (length (r_deps s)) =
+              Some (if r_disposed s then DInert false else DInner true)) as N0.
+      { cbn [r_step]. destruct (r_disposed s); cbn [fst r_deps];
+          rewrite nth_error_app2 by lia; rewrite Nat.sub_diag; reflexivity. }
+      rewrite (r_final_nth t _ _ _ N0) in N. injection N as <-. reflexivity.
+    + destruct (IH _ k d Ge N) as [h1 [h2 [E [G D]]]].
+      exists (o :: h1), h2. split; [rewrite E; reflexivity|]. split.
+      * unfold gets in *. cbn [filter]. destruct (is_rget o); cbn [b2n length] in *; lia.
+      * rewrite final_cons. exact D.
+Qed.
+
+Lemma rwf_dispd_bound : forall h1 n k rest,
+  rwf n (h1 ++ rest) = true -> dispd k h1 = true -> k < n + gets h1.
+Proof.
+  induction h1 as [|o t IH]; intros n k rest W D; [discriminate D|].
+  cbn [app] in W. unfold dispd in D. cbn [existsb] in D. unfold gets. cbn [filter].
+  destruct o as [|j| |]; cbn [rwf is_rdisp is_rget orb length] in *.
+  - specialize (IH (S n) k rest W D). unfold gets in IH. lia.
+  - apply andb_true_iff in W. destruct W as [W1 W2]. apply Nat.ltb_lt in W1.
+    destruct (Nat.eqb k j) eqn:E.
+    + apply Nat.eqb_eq in E. subst j. lia.
+    + cbn [orb] in D. specialize (IH n k rest W2 D). unfold gets in IH. lia.
+  - specialize (IH n k rest W D). unfold gets in IH. lia.
+  - specialize (IH n k rest W D). unfold gets in IH. lia.
+Qed.
+
+Lemma dispd_app : forall k a b, dispd k (a ++ b) = (dispd k a || dispd k b)%bool.
+Proof. intros. unfold dispd. apply existsb_app. Qed.
+
+(* ONLY AFTER: if the underlying item was disposed then dispose() was called on the primary and every
+   dependent handed out was disposed -- except those requested after the release (which are inert) *)
+Lemma rc_released_only_after : forall h,
+  u_disposes (log r_step r_init h) = 1 ->
+  existsb is_rdispose h = true /\
+  forall k, k < gets h ->
+    dispd k h = true \/
+    exists h1 h2, h = h1 ++ RGet :: h2 /\ gets h1 = k /\ u_disposes (log r_step r_init h1) = 1.
+Proof.
+  intros h U. rewrite rc_underlying_is_released_flag in U.
+  pose proof (r_final_ok h r_init r_init_ok) as [_ [H1 _]].
+  destruct (r_disposed (final r_step r_init h)) eqn:D; [|discriminate U].
+  destruct (H1 eq_refl) as [P L]. split.
+  - rewrite (r_primary_gen h r_init r_init_ok) in P. exact P.
+  - intros k Hk.
+    assert (k < length (r_deps (final r_step r_init h))) as Lk by (rewrite r_final_length; cbn; lia).
+    destruct (nth_error (r_deps (final r_step r_init h)) k) as [d|] eqn:N;
+      [|apply nth_error_None in N; lia].
+    destruct (r_created h r_init k d (Nat.le_0_l _) N) as [h1 [h2 [E [G Dd]]]]. cbn [r_init r_deps length] in G.
+    destruct (r_disposed (final r_step r_init h1)) eqn:D1.
+    + right. exists h1, h2. split; [exact E|]. split; [lia|].
+      rewrite rc_underlying_is_released_flag, D1. reflexivity.
+    + left. cbn [dep_after andb] in Dd. destruct (dispd k h2) eqn:D2.
+      * rewrite E, dispd_app. unfold dispd at 2. cbn [existsb is_rdisp]. fold (dispd k h2). rewrite D2.
+        rewrite !orb_true_r. reflexivity.
+      * cbn [negb] in Dd. subst d. exfalso. exact (live_zero_nth _ k L N).
+Qed.
+
+(* EXACTLY WHEN: if dispose() was called on the primary and every dependent handed out was disposed,
+   the underlying item has been disposed (once) *)
+Lemma rc_released_when_all_done : forall h,
+  rwf 0 h = true -> existsb is_rdispose h = true ->
+  (forall k, k < gets h -> dispd k h = true) ->
+  u_disposes (log r_step r_init h) = 1.
+Proof.
+  intros h W P A. rewrite rc_underlying_is_released_flag.
+  pose proof (r_final_ok h r_init r_init_ok) as [_ [_ H2]].
+  destruct (r_disposed (final r_step r_init h)) eqn:D; [reflexivity|]. exfalso.
+  assert (live (r_deps (final r_step r_init h)) <> 0) as L.
+  { intros L0. assert (true = false) as X; [|discriminate X]. rewrite <- D. symmetry. apply H2. split; [|exact L0].
+    rewrite (r_primary_gen h r_init r_init_ok). exact P. }
+  destruct (live_pos_nth _ L) as [k N].
+  destruct (r_created h r_init k _ (Nat.le_0_l _) N) as [h1 [h2 [E [G Dd]]]]. cbn [r_init r_deps length] in G.
+  assert (k < gets h) as Hk.
+  { rewrite E. unfold gets. rewrite filter_app, app_length. cbn [filter is_rget length]. unfold gets in G. lia. }
+  specialize (A k Hk). rewrite E, dispd_app in A. unfold dispd at 2 in A. cbn [existsb is_rdisp orb] in A.
+  fold (dispd k h2) in A.
+  assert (dispd k h1 = false) as B1.
+  { destruct (dispd k h1) eqn:B; [|reflexivity]. rewrite E in W.
+    pose proof (rwf_dispd_bound h1 0 k _ W B). lia. }
+  rewrite B1 in A. cbn [orb] in A. rewrite A in Dd.
+  destruct (r_disposed (final r_step r_init h1)); cbn in Dd; discriminate Dd.
+Qed.
+
+(* DOUBLE DISPOSE: disposing a dependent that was already disposed changes nothing and emits nothing *)
+Lemma rc_second_dispose_noop : forall h k,
+  rwf 0 h = true -> dispd k h = true ->
+  r_step (final r_step r_init h) (RDispDep k) = (final r_step r_init h, []).
+Proof.
+  intros h k W Dk.
+  assert (k < gets h) as Hk.
+  { pose proof (rwf_dispd_bound h 0 k [] ) as X. rewrite app_nil_r in X. specialize (X W Dk). lia. }
+  assert (k < length (r_deps (final r_step r_init h))) as Lk by (rewrite r_final_length; cbn; lia).
+  destruct (nth_error (r_deps (final r_step r_init h)) k) as [d|] eqn:N; [|apply nth_error_None in N; lia].
+  destruct (r_created h r_init k d (Nat.le_0_l _) N) as [h1 [h2 [E [G Dd]]]]. cbn [r_init r_deps length] in G.
+  assert (dispd k h1 = false) as B1.
+  { destruct (dispd k h1) eqn:B; [|reflexivity]. rewrite E in W.
+    pose proof (rwf_dispd_bound h1 0 k _ W B). lia. }
+  assert (dispd k h2 = true) as B2.
+  { rewrite E, dispd_app, B1 in Dk. unfold dispd at 1 in Dk. cbn [existsb is_rdisp orb] in Dk. exact Dk. }
+  rewrite B2 in Dd. cbn [r_step]. rewrite N.
+  destruct (r_disposed (final r_step r_init h1)); cbn in Dd; subst d.
+  - rewrite (set_nth_same _ _ _ _ N). destruct (final r_step r_init h); reflexivity.
+  - reflexivity.
+Qed.
+
+Lemma rc_second_dispose_erasable : forall h k h',
+  rwf 0 h = true -> dispd k h = true ->
+  log r_step r_init (h ++ RDispDep k :: h') = log r_step r_init (h ++ h') /\
+  final r_step r_init (h ++ RDispDep k :: h') = final r_step r_init (h ++ h').
+Proof.
+  intros h k h' W D. pose proof (rc_second_dispose_noop h k W D) as N.
+  rewrite !log_app, !final_app, log_cons, final_cons, N. cbn [fst snd app]. split; reflexivity.
+Qed.
